@@ -414,6 +414,7 @@ RULES = {
 
 
 DOTALL = ("inner_macro_def", "mismatch_debug", "offered_let")
+DOTALL_EXTRA = []   # rules of json targets that need re.S
 
 
 def make_rewriter(rel, plan):
@@ -450,7 +451,7 @@ def make_rewriter(rel, plan):
                 def sub(m):
                     out = m.expand(repl)
                     return out + "\n" * (m.group(0).count("\n") - out.count("\n"))
-                seg, n = re.subn(rx, sub, seg, flags=re.S if rn in DOTALL else 0)
+                seg, n = re.subn(rx, sub, seg, flags=re.S if (rn in DOTALL or rn in DOTALL_EXTRA) else 0)
                 if (want is None and n < 1) or (want is not None and n != want):
                     bad = "normalisation rule %r applies %d times in %s (declared: %s)" % (rn, n, name, want or "at least once"); break
                 log.append(("%s in %s: %s" % (rn, name, RULES[rn][2]), n))
@@ -475,6 +476,17 @@ def load_targets():
     def add(d, origin):
         d = dict(d)
         d["fns"] = [tuple(x) for x in d.get("fns", [])]
+        # json targets (b06): own normalisation rules `"rules": {name: [regex, replacement, meaning(, count | null)]}`
+        # (registered under the given names; a name that already exists with another text is an error) and
+        # `"normalise": {"Impl::fn": [rule names]}` (json has no tuple keys)
+        for rn, rv in (d.pop("rules", None) or {}).items():
+            rv = tuple(rv)
+            if rn in RULES and RULES[rn] != rv:
+                raise ExtractError("x_fn: %s: normalisation rule %r is already defined differently" % (origin, rn))
+            RULES[rn] = rv
+            if d.get("rules_dotall") and rn in d["rules_dotall"] and rn not in DOTALL_EXTRA: DOTALL_EXTRA.append(rn)
+        if isinstance(d.get("normalise"), dict):
+            d["normalise"] = {(tuple(k.split("::", 1)) if isinstance(k, str) else k): v for k, v in d["normalise"].items()}
         if d["area"] not in by:
             d.setdefault("consts", []); d.setdefault("structs", []); d.setdefault("externals", {}); d.setdefault("foreign_structs", {})
             d["consts"], d["structs"] = list(d["consts"]), list(d["structs"])
